@@ -117,7 +117,7 @@ def authSSH {σ : Type} (P : Pats) (cfg : Cfg) (react : σ → Bytes → σ × L
           (tr ++ .deliver b :: credWrites cfg .phrase cfg.phrase)
 
 /-- `AuthenticateSSH(p, pp)` from a fresh channel (fuel: more than the number of prompts that can be
-    answered; `not_stuck` proves it suffices) -/
+    answered; `C10.login_never_stuck` proves it suffices) -/
 def loginSSH {σ : Type} (P : Pats) (cfg : Cfg) (react : σ → Bytes → σ × List Bytes)
     (d : σ) (q : List Bytes) : Res σ :=
   authSSH P cfg react (cfg.uMax + cfg.pMax + cfg.ppMax + 1) d 0 0 q []
